@@ -208,7 +208,12 @@ def disptex(matrix, title,  nd = 3, pdims = True, h=""):
     for i in range(shape[0]):
         #strr+= "\\hline\n"
         for j in range(shape[1]):
-            strr+= str(round(matrix[i, j], nd))
+            cell = matrix[i, j]
+            try:
+                cell = round(cell, nd)
+            except TypeError:
+                pass # numpy booleans (and other cells without __round__) are shown as they are
+            strr+= str(cell)
             if j != shape[1] - 1:
                 strr+=" & "
                 continue
